@@ -265,4 +265,102 @@ theorem asm_callback_spec (a : ASM) (op : AsmOp) (g : GenStep) : AsmCbSpec a op 
   · exact asm_cb_setClose a g
   · exact asm_cb_setWrite a g
 
+/-! ## the read-ahead drain loop of inReadEvent -/
+
+theorem inReadDrain_nil (a : ASM) (g : GenStep) : a.inReadDrain g [] = a.inReadEvent g := by
+  simp [ASM.inReadDrain, ASM.inReadEvent, ASM.drainLoop]
+
+/-- what the loop maintains: a successful state holds at most one operation -/
+def DrainOk (r : ASM × AsmRes) : Prop := ∀ evs, r.2 = .ok evs → r.1.activeOps ≤ 1
+
+theorem doReadOp_fresh_ok (b : ASM) (hb : b.noOp = true) (g : GenStep) :
+    DrainOk (({ b with reader := true }).doReadOp g) := by
+  obtain ⟨h, c, r, w, res⟩ := b
+  simp [ASM.noOp] at hb
+  obtain ⟨⟨⟨rfl, rfl⟩, rfl⟩, rfl⟩ := hb
+  intro evs
+  cases g with
+  | yld v => simp only [ASM.doReadOp]; split <;> simp [ASM.activeOps]
+  | stop => simp [ASM.doReadOp]
+  | raise => simp [ASM.doReadOp]
+
+theorem drainLoop_ok : ∀ (pend : List GenStep) (r : ASM × AsmRes), DrainOk r → DrainOk (ASM.drainLoop r pend) := by
+  intro pend
+  induction pend with
+  | nil => intro r h; exact h
+  | cons g rest ih =>
+    intro r h
+    simp only [ASM.drainLoop]
+    cases hr : r.2 with
+    | ok evs =>
+      simp only
+      by_cases hn : r.1.noOp = true
+      · simp only [hn, if_true]
+        have h1 := doReadOp_fresh_ok r.1 hn g
+        cases hr' : (({ r.1 with reader := true }).doReadOp g).2 with
+        | ok evs' =>
+          simp only
+          apply ih
+          intro e _
+          exact h1 evs' hr'
+        | assertionError => simp only; intro e he; rw [hr'] at he; simp at he
+        | raised => simp only; intro e he; rw [hr'] at he; simp at he
+      · simp only [hn]; exact h
+    | assertionError => simp only; exact h
+    | raised => simp only; exact h
+
+theorem asm_drain_spec (a : ASM) (g : GenStep) (pend : List GenStep) :
+    ((a.inReadDrain g pend).2 = .assertionError ∨ (a.inReadDrain g pend).2 = .raised →
+        (a.inReadDrain g pend).1 = ASM.clear) ∧
+    (∀ evs, (a.inReadDrain g pend).2 = .ok evs → (a.inReadDrain g pend).1.activeOps ≤ 1) := by
+  have key : ∀ r : ASM × AsmRes, DrainOk r →
+      ((ASM.guard r).2 = .assertionError ∨ (ASM.guard r).2 = .raised → (ASM.guard r).1 = ASM.clear) ∧
+      (∀ evs, (ASM.guard r).2 = .ok evs → (ASM.guard r).1.activeOps ≤ 1) := by
+    intro r h
+    unfold ASM.guard
+    cases hr : r.2 with
+    | ok evs => simp only; exact ⟨by simp [hr], fun e he => h e he⟩
+    | assertionError => simp
+    | raised => simp
+  unfold ASM.inReadDrain
+  apply key
+  obtain ⟨h, c, r, w, res⟩ := a
+  by_cases hc : (ASM.checkAssert ⟨h, c, r, w, res⟩) = true
+  · simp only [hc, Bool.not_true, Bool.false_eq_true, if_false]
+    have hact : (ASM.activeOps ⟨h, c, r, w, res⟩) ≤ 1 := by
+      simp [ASM.checkAssert] at hc
+      omega
+    cases h <;> cases c <;> cases r <;> cases w <;> simp [ASM.activeOps] at hact <;> simp only [if_true, Bool.false_eq_true, if_false]
+    · apply drainLoop_ok
+      exact doReadOp_fresh_ok ⟨false, false, false, false, res⟩ (by simp [ASM.noOp]) g
+    · intro evs; cases g <;> simp [ASM.doWriteOp, ASM.activeOps]
+    · intro evs; cases g with
+      | yld v => simp only [ASM.doReadOp]; split <;> simp [ASM.activeOps]
+      | stop => simp [ASM.doReadOp]
+      | raise => simp [ASM.doReadOp]
+    · intro evs; cases g <;> simp [ASM.doCloseOp, ASM.activeOps]
+    · intro evs; cases g <;> simp [ASM.doHandshakeOp, ASM.activeOps]
+  · simp only [hc, Bool.not_false, if_true]
+    intro evs he; simp at he
+
+/-- every complete record found in the read-ahead buffer is handed to outReadEvent before
+    inReadEvent returns: an idle machine whose first read and all `n` extra reads complete
+    (`yld v`, v a result object, i.e. not 0/1) emits n+1 outReadEvents and ends idle -/
+theorem drainLoop_all_complete : ∀ (vs : List Nat) (evs : List AsmEv), (∀ v ∈ vs, v ≠ 0 ∧ v ≠ 1) →
+    ASM.drainLoop (ASM.clear, .ok evs) (vs.map GenStep.yld) =
+      (ASM.clear, .ok (evs ++ List.replicate vs.length AsmEv.outRead)) := by
+  intro vs
+  induction vs with
+  | nil => intro evs _; simp [ASM.drainLoop]
+  | cons v vs ih =>
+    intro evs h
+    have hv := h v (by simp)
+    have hne : ¬ (v = 0 ∨ v = 1) := by omega
+    simp only [List.map_cons, ASM.drainLoop, ASM.noOp, ASM.clear, ASM.doReadOp]
+    simp [hne]
+    have := ih (evs ++ [AsmEv.outRead]) (fun x hx => h x (by simp [hx]))
+    simp only [ASM.clear] at this
+    rw [this]
+    simp [List.replicate_succ, List.append_assoc]
+
 end Tls.IO
